@@ -14,6 +14,7 @@ import ClarabelProofs.Lemmas.StepKBridge
 import ClarabelProofs.Lemmas.SolverFullZero
 import ClarabelProofs.Lemmas.SolverFullExample
 import ClarabelProofs.Lemmas.CollapseMem
+import ClarabelProofs.Lemmas.SolverFullPresolvedCert
 
 namespace Clarabel.C01
 open Clarabel Clarabel.Solver Clarabel.InfoUser Clarabel.Dense
@@ -160,5 +161,104 @@ integer data, evaluated by the kernel -/
 example : ∃ S r, newSolver 3 = .ok S ∧ S.solve (Example.st 3) = .ok r
     ∧ r.S.solution.status = .solved := FullExample.run3_hyps
 end
+
+/-! ## Round 5 — the full theorems when PRESOLVE DROPS ROWS -/
+
+/-- **[R] `C01.full_solved_certifies_presolved`** — `full_solved_certifies` when presolve is enabled
+and DROPS ROWS (`keep` = the keep vector of `make_reduction_map` on the collapsed cone list, at
+least one flag `false`; together with `full_solved_certifies` — presolve off or nothing dropped —
+this covers every case).  For the full-length `x, s, z` the user receives (`reverse_presolve`) and
+the user's FULL `P` (`P.to_triu()`), `q`, `A`, `b` (capped), in exact arithmetic:
+* the dual residual test `‖Px+Aᵀz+q‖₂ / max(1, ‖q‖∞+‖x‖₂+‖z‖₂) < tol_feas` holds VERBATIM;
+* the gap test (`p = ½xᵀPx+qᵀx`, `d = −bᵀz−½xᵀPx`) holds VERBATIM;
+* the primal residual test holds with the residual norm and `‖s‖` taken over the KEPT rows
+  (`nrmKept`) and `normb = ‖b[keep]‖∞` (capped): `‖(Ax+s−b)|kept‖ / max(1, normb+‖x‖+‖s|kept‖) < tol_feas`;
+* every dropped row carries `s = infbound`, `z = 0`;
+* `s ∈ K`, `z ∈ K*` for the user's (collapsed) cone list and the FULL vectors (`0 ≤ infbound`:
+  dropped rows belong to nonnegative cones), `|x| = n`.
+Composition of `C09.presolve_transparent_full` (the presolve-on solve is the solve of the
+hand-reduced problem built with presolve off), `full_solved_certifies` on the hand-reduced problem,
+the arithmetic of `solved_certifies_user_problem_presolved` and the lifting of cone membership
+through `reduce_cones` (`Lemmas/SolverFullPresolvedCert.lean`). -/
+theorem full_solved_certifies_presolved {P : Csc ℝ} {q : Array ℝ} {A : Csc ℝ} {b : Array ℝ}
+    {cones : List (ConeT ℝ)} {st : Solver.Settings ℝ} {perm : Array Nat} {S : Solver ℝ}
+    {r : SolveResult ℝ} {keep : List Bool}
+    (hin : InputOK P q A b cones) (hpe : st.presolveEnable = true)
+    (hk : Presolve.keepFlags (Presolve.threshold st.infbound) (Cones.newCollapsed cones) b.toList = .ok keep)
+    (hc : keep.count true < b.size) (hib : 0 ≤ st.infbound)
+    (hlo : 0 < st.equil.minScaling) (hhi : 0 < st.equil.maxScaling)
+    (hf0 : 0 < st.maxStepFraction) (hf1 : st.maxStepFraction < 1) (hmv : 0 < st.maxValue)
+    (hnew : Solver.new P q A b cones st perm = .ok S) (hr : S.solve st = .ok r)
+    (hst : r.S.solution.status = .solved) :
+    ∃ Pn, ProblemData.triuStep P = .ok Pn ∧
+      let n := A.n
+      let m := A.m
+      let bc := ProblemData.capB b st.infbound
+      let Pd := symFn Pn n
+      let qd := vecFn q n
+      let x := vecFn r.S.solution.x n
+      let s := vecFn r.S.solution.s m
+      let z := vecFn r.S.solution.z m
+      let kp := InfoPresolve.keepFn keep m
+      let normb := Vec.normInf (ProblemData.capB (Vec.select b keep.toArray) st.infbound)
+      let pobj := dot x (mulV Pd x) / 2 + dot qd x
+      let dobj := -dot (vecFn bc m) z - dot x (mulV Pd x) / 2
+      InfoPresolve.nrmKept kp (fun i => mulV (matFn A m n) x i + s i - vecFn bc m i)
+          / max 1 (normb + nrm x + InfoPresolve.nrmKept kp s) < st.info.full.feas
+      ∧ nrm (fun j => mulV Pd x j + mulVT (matFn A m n) z j + qd j)
+          / max 1 (Vec.normInf q + nrm x + nrm z) < st.info.full.feas
+      ∧ (|pobj - dobj| < st.info.full.gap_abs
+          ∨ |pobj - dobj| / max 1 (min |pobj| |dobj|) < st.info.full.gap_rel)
+      ∧ (∀ i, kp i = false → s i = st.infbound ∧ z i = 0)
+      ∧ Equil.CompositeMem Equil.ConeMem (Cones.newCollapsed cones) r.S.solution.s.toList
+      ∧ Equil.CompositeMem Equil.ConeMemDual (Cones.newCollapsed cones) r.S.solution.z.toList
+      ∧ r.S.solution.x.size = A.n :=
+  full_solved_presolved_chain hin hpe hk hc hib hlo hhi hf0 hf1 hmv hnew hr hst
+
+/-- **[R] `C01.full_almost_solved_certifies_presolved`** — `full_almost_solved_certifies` when
+presolve DROPS ROWS: the reduced-tolerance test on the user's full data, dual and gap tests
+verbatim, the primal test over the kept rows, `(s, z) = (infbound, 0)` on the dropped rows (also
+after an insufficient-progress rollback). -/
+theorem full_almost_solved_certifies_presolved {P : Csc ℝ} {q : Array ℝ} {A : Csc ℝ} {b : Array ℝ}
+    {cones : List (ConeT ℝ)} {st : Solver.Settings ℝ} {perm : Array Nat} {S : Solver ℝ}
+    {r : SolveResult ℝ} {keep : List Bool}
+    (hin : InputOK P q A b cones) (hpe : st.presolveEnable = true)
+    (hk : Presolve.keepFlags (Presolve.threshold st.infbound) (Cones.newCollapsed cones) b.toList = .ok keep)
+    (hc : keep.count true < b.size)
+    (hlo : 0 < st.equil.minScaling) (hhi : 0 < st.equil.maxScaling)
+    (hf0 : 0 < st.maxStepFraction) (hf1 : st.maxStepFraction < 1) (hmv : 0 < st.maxValue)
+    (hnew : Solver.new P q A b cones st perm = .ok S) (hr : S.solve st = .ok r)
+    (hst : r.S.solution.status = .almostSolved) :
+    ∃ Pn, ProblemData.triuStep P = .ok Pn ∧
+      let n := A.n
+      let m := A.m
+      let bc := ProblemData.capB b st.infbound
+      let Pd := symFn Pn n
+      let qd := vecFn q n
+      let x := vecFn r.S.solution.x n
+      let s := vecFn r.S.solution.s m
+      let z := vecFn r.S.solution.z m
+      let kp := InfoPresolve.keepFn keep m
+      let normb := Vec.normInf (ProblemData.capB (Vec.select b keep.toArray) st.infbound)
+      let pobj := dot x (mulV Pd x) / 2 + dot qd x
+      let dobj := -dot (vecFn bc m) z - dot x (mulV Pd x) / 2
+      InfoPresolve.nrmKept kp (fun i => mulV (matFn A m n) x i + s i - vecFn bc m i)
+          / max 1 (normb + nrm x + InfoPresolve.nrmKept kp s) < st.info.reduced.feas
+      ∧ nrm (fun j => mulV Pd x j + mulVT (matFn A m n) z j + qd j)
+          / max 1 (Vec.normInf q + nrm x + nrm z) < st.info.reduced.feas
+      ∧ (|pobj - dobj| < st.info.reduced.gap_abs
+          ∨ |pobj - dobj| / max 1 (min |pobj| |dobj|) < st.info.reduced.gap_rel)
+      ∧ (∀ i, kp i = false → s i = st.infbound ∧ z i = 0) :=
+  full_almost_solved_presolved_chain hin hpe hk hc hlo hhi hf0 hf1 hmv hnew hr hst
+
+/-- non-vacuity of the presolve hypotheses `hk`, `hc`, `hib` over `ℝ`: cones `[nonneg 2]`,
+`b = (1, 2·10²⁰)`, infinity bound `10²⁰` — `make_reduction_map` drops row 1.  (That `new` succeeds
+with presolve on, drops the row, and `solve()` ends `Solved` with `s = [0, infbound]`, `z = [1, 0]`
+on the integer instance of `Lemmas/PresolveSolveTransparent.lean` was evaluated by the kernel, see
+`C09`'s non-vacuity example and the comment there.) -/
+example : Presolve.keepFlags (Presolve.threshold (1e20 : ℝ)) (Cones.newCollapsed [ConeT.nonneg 2])
+      (#[1, 2e20] : Array ℝ).toList = .ok [true, false]
+    ∧ [true, false].count true < (#[1, 2e20] : Array ℝ).size ∧ (0 : ℝ) ≤ 1e20 :=
+  ⟨Solver.keepFlags_example, by decide, by norm_num⟩
 
 end Clarabel.C01
